@@ -72,7 +72,16 @@ fn component() -> BoxedStrategy<String> {
     gen::from_alphabet(COMP_ALPHA, 1, 8)
 }
 
+/// a component of 50..120 characters: a few of them make a path longer than any fixed-size path buffer (260 bytes and the like)
+fn long_component() -> BoxedStrategy<String> {
+    gen::from_alphabet(COMP_ALPHA, 50, 120)
+}
+
 fn tail() -> BoxedStrategy<String> {
+    prop_oneof![24 => short_tail(), 1 => (vec(long_component(), 1..5), short_tail()).prop_map(|(dirs, t)| format!("{}/{}", dirs.join("/"), t))].boxed()
+}
+
+fn short_tail() -> BoxedStrategy<String> {
     (vec(component(), 0..4), component(), prop::sample::select(vec!["tex", "mdl", "exh", "exd", "dat", "x", "sklb"])).prop_map(|(dirs, name, ext)| {
         let mut s = String::new();
         for d in dirs {
@@ -100,7 +109,7 @@ fn chunk_spec() -> BoxedStrategy<Chunk> {
 }
 
 fn query() -> BoxedStrategy<Query> {
-    (0u8..3, prop_oneof![3 => Just(0u8), 3 => Just(1u8), 1 => 2u8..7, 1 => Just(7u8)], any::<u16>(), vec(any::<u16>(), 1..6), component()).prop_map(|(op, kind, pick, flips, salt)| Query { op, kind, pick, flips, salt }).boxed()
+    (0u8..3, prop_oneof![6 => Just(0u8), 6 => Just(1u8), 2 => 2u8..7, 2 => Just(7u8), 1 => Just(8u8)], any::<u16>(), vec(any::<u16>(), 1..6), component()).prop_map(|(op, kind, pick, flips, salt)| Query { op, kind, pick, flips, salt }).boxed()
 }
 
 fn strategy(_: &Ctx) -> BoxedStrategy<Case> {
@@ -242,7 +251,9 @@ fn materialise(c: &Case) -> (Install, Model) {
                 continue;
             }
             let offset = 2048 + f.slot as u64 * 512 + f.far as u64 * (1u64 << 32);
-            let content = format!("{}|{}|{}|{}|{}|{}", exp, cat_name, ch.chunk, f.dat, offset, path).into_bytes();
+            // the content names its own location; a long path is named by its start and its hash (an entry has 512 bytes)
+            let shown = if path.len() > 200 { format!("{}#{:016x}", &path[..200], util::fnv64(path.as_bytes())) } else { path.clone() };
+            let content = format!("{}|{}|{}|{}|{}|{}", exp, cat_name, ch.chunk, f.dat, offset, shown).into_bytes();
             let mode = if f.slot % 2 == 0 { Mode::Raw } else { Mode::Dynamic };
             let entry = sqpack::standard_entry(&[BlockSpec { data: content.clone(), mode }], 0, &[]);
             assert!(entry.len() <= 512);
@@ -351,6 +362,15 @@ fn query_path(q: &Query, m: &Model) -> String {
             let tp = t.path.rfind('/').unwrap();
             format!("{}/{}", &s.path[..p], &t.path[tp + 1..])
         }
+        8 => {
+            // a stored path with one of its last 40 characters changed (separators and dots kept): absent unless stored
+            let mut b = s.path.clone().into_bytes();
+            let k = b.len() - 1 - (q.flips[0] as usize % b.len().min(40));
+            if b[k] != b'/' && b[k] != b'.' {
+                b[k] = if b[k] == b'q' { b'z' } else { b'q' };
+            }
+            String::from_utf8(b).unwrap()
+        }
         _ => format!("{}x/{}", q.salt, &s.path[p + 1..]),
     }
 }
@@ -443,6 +463,12 @@ fn prop(c: &Case, ctx: &Ctx) -> PResult {
             if pass == 0 {
                 ctx.eval();
                 ctx.classf(format!("op:{}", ["exists", "find_offset", "extract"][q.op as usize]));
+                if paths[i].len() > 260 {
+                    ctx.class(if want_rec.is_some() { "path>260-chars:present" } else { "path>260-chars:absent" });
+                }
+                if q.kind == 8 && want_rec.is_none() {
+                    ctx.class("absent:stored-path-with-a-late-character-changed");
+                }
                 match want_rec {
                     Some(s) => {
                         ctx.class("answer:present");
